@@ -9,7 +9,7 @@ P=/verif/seeded/$ID/patch.diff
 if ! git -C /repo diff --quiet; then echo "/repo has uncommitted changes"; exit 2; fi
 git -C /repo apply "$P" || { echo "patch does not apply"; exit 2; }
 OUT=$(mktemp -d /tmp/seedout.XXXXXX)
-trap 'git -C /repo checkout -- . ; rm -rf "$OUT"' EXIT
+trap 'git -C /repo checkout -- . ; rm -rf "$OUT"; cd /verif/harness && cargo build --release --offline >/dev/null 2>&1' EXIT
 cd /verif/harness && cargo build --release --offline >/dev/null 2>&1 || { echo "BUILD FAILED with patch $ID"; exit 2; }
 cd /verif
 for C in "$@"; do
